@@ -34,7 +34,10 @@ func runC17(c *core.Ctx) {
 	}
 	c17Grammar(c)
 	c17PostChecks(c)
+	tagCheckRejectsEmpty(c, "C17.R3")
 	c17Wrappers(c)
+	// the routing layer accepts a name, tag or digest only if the ociref predicate does
+	c06ValidatedFields(c, "C17.R5")
 }
 
 // patternUsedBy: the constant pattern of the regexp on which fn calls method.
